@@ -514,6 +514,11 @@ CATALOGUE['C14'] += [
   (F, 'R-PARTIALRAISE', 'camxfiles/one3d/Memmap.py', "        if self.__records % lays != 0:\n            raise ValueError('Incomplete time step: %d records of %d layers'\n                             % (self.__records, lays))\n", ""),
 ]
 
+CATALOGUE['C09'] += [
+  (F, 'R-PROBETOTAL', 'camxfiles/landuse/Memmap.py', "        first_line = self._rffile.infile.read(8).decode('latin1')\n", "        first_line, = self._rffile.read('8s')\n"),
+  (F, 'R-PROBETOTAL', 'camxfiles/landuse/Memmap.py', "        first_line = self._rffile.infile.read(8).decode('latin1')\n", "        first_line = self._rffile.infile.read(8).decode()\n"),
+  (S, None, 'camxfiles/landuse/Memmap.py', "        first_line = self._rffile.infile.read(8).decode('latin1')\n", "        first_line = self._rffile.infile.read(8).decode('utf-8', errors='replace')\n"),
+]
 CATALOGUE['C06'] += [
   (F, 'R-MASKCARRY', _F, "                vals = np.ma.masked_values(vals, values)\n                vals = np.ma.masked_where(premask, vals)\n", "                vals = np.ma.masked_values(vals, values)\n"),
   (F, 'R-MASKCARRY', _F, "                premask = np.ma.getmaskarray(vals)\n                vals = np.ma.masked_values(vals, values)\n", "                vals = np.ma.masked_values(vals, values)\n                premask = np.ma.getmaskarray(vals)\n"),
